@@ -137,6 +137,14 @@ var floatPool = []float64{0, math.Copysign(0, -1), 1, -1, 0.5, 1.5, 1e21, 1e20, 
 
 // Float returns a boundary-biased finite-or-not float64 (special=true allows NaN/Inf).
 func (r *Rand) Float(special bool) float64 {
+	f := r.float(special)
+	if !special && (math.IsNaN(f) || math.IsInf(f, 0)) {
+		return 42.5
+	}
+	return f
+}
+
+func (r *Rand) float(special bool) float64 {
 	switch r.Intn(5) {
 	case 0:
 		f := floatPool[r.Intn(len(floatPool))]
